@@ -66,7 +66,7 @@ def native_build(src, out, defs=(), extra=(), std='c++11', cxx='g++', opt='-O2',
     fl = [f.replace('-std=c++', '-std=gnu++') for f in base_flags(std) if f not in ('-fno-vectorize', '-fno-slp-vectorize', '-fno-unroll-loops', '-Wno-everything', '-O1')]
     cmd = [cxx]
     for d in pre_inc: cmd += ['-I', d]
-    cmd += fl + ['-w', opt, '-fpermissive', '-fopenmp', src] + list(objs) + ['-o', out]
+    cmd += fl + ['-w', opt, '-fpermissive', '-fopenmp', '-DOMPI_SKIP_MPICXX', src] + list(objs) + ['-o', out]
     for d in defs: cmd.append('-D' + d)
     cmd += list(extra)
     rc, o, e, dt, to = sh(cmd, timeout=600)
